@@ -41,7 +41,11 @@ fn u_space(tier: Tier) -> Vec<Universe> {
         if rows.iter().any(|r| r.surface.chars().any(is_space)) || xname == "multibyte" {
             continue;
         }
+        for (si, &(sinv, sgrp, slen)) in [(0u8, 1u8, 0u16), (0, 0, 0), (1, 0, 2)].iter().enumerate() {
         for &(inv, grp, len) in &al_settings {
+            if si > 0 && (inv, grp, len) != (1, 0, 2) && (inv, grp, len) != (0, 1, 2) {
+                continue;
+            }
             let mut conns: Vec<(String, usize, usize, Vec<i32>, ConnKind, Option<Bigram>)> = vec![];
             for style in [1usize, 2, 3, 4] {
                 conns.push((format!("matrix3x3s{style}"), 3, 3, matrix_pattern(3, 3, style), ConnKind::Matrix, None));
@@ -52,7 +56,7 @@ fn u_space(tier: Tier) -> Vec<Universe> {
                 conns.push((format!("{kind:?}K{k}"), nr, nl, t, kind, Some(b)));
             }
             for (cname, nr, nl, conn, kind, bigram) in conns {
-                let cats = vec![cat("DEFAULT", 0, 1, 0), cat("SPACE", 0, 1, 0), cat("AL", inv, grp, len), cat("KJ", 0, 0, 1)];
+                let cats = vec![cat("DEFAULT", 0, 1, 0), cat("SPACE", sinv, sgrp, slen), cat("AL", inv, grp, len), cat("KJ", 0, 0, 1)];
                 let sys: Vec<Row> = rows
                     .iter()
                     .map(|r| Row {
@@ -62,7 +66,7 @@ fn u_space(tier: Tier) -> Vec<Universe> {
                     })
                     .collect();
                 out.push(Universe {
-                    name: format!("space/{xname}/AL={inv}{grp}{len}/{cname}"),
+                    name: format!("space/{xname}/SPACE={sinv}{sgrp}{slen}/AL={inv}{grp}{len}/{cname}"),
                     dict: RefDict {
                         cats,
                         ranges: ranges.clone(),
@@ -91,6 +95,7 @@ fn u_space(tier: Tier) -> Vec<Universe> {
                     mapping: None,
                 });
             }
+        }
         }
     }
     out
